@@ -12,6 +12,7 @@ import threading
 import traceback
 import types
 import warnings
+import weakref
 
 if sys.version_info < (3, 11):
     from exceptiongroup import ExceptionGroup
@@ -122,6 +123,7 @@ def warn_glue_failed(kind: str, module_name: str, exc: Exception) -> None:
 
 glue_lock = threading.RLock()
 glue_being_installed = False
+modules_with_own_glue: "weakref.WeakSet[Any]" = weakref.WeakSet()
 
 
 def add_glue_as_needed(*, _sys_modules_len_cache: list[int] = [0]) -> None:
@@ -168,7 +170,18 @@ def _install_pending_glue(_sys_modules_len_cache: list[int]) -> None:
                 "_stackscope_install_glue_", None
             )
         except Exception:  # module disappeared, doesn't have a dict, etc
+            module = None
             module_fn = None
+        try:
+            if module_fn is not None:
+                modules_with_own_glue.add(module)
+            elif builtin_fn is not None and module in modules_with_own_glue:
+                # This module object brought its own glue, which ran when
+                # we came across it under another name (an alias that the
+                # module registered for itself, say)
+                builtin_fn = None
+        except TypeError:  # something that can't be weakly referenced
+            pass
         try:
             if module_fn is not None or builtin_fn is not None:
                 _verif_hook("glue:before_call", module_name)
